@@ -208,6 +208,15 @@ NestedV3 == {
   <<TSet(TUdt(<<TInt, TInt>>)), KSlice(KStruct(<<i32, i32>>)), L(<<Tu(<<I(1), I(2)>>)>>)>>,
   <<TTuple(<<TUdt(<<TInt, TText>>), TInt>>), KIfaces(<<KStruct(<<i32, str>>), i32>>), Tu(<<Tu(<<I(1), S(<<97>>)>>), I(9)>>)>>,
   <<TUdt(<<TUdt(<<TInt, TText>>), TInt>>), KStruct(<<KStruct(<<i32, str>>), i32>>), Tu(<<Tu(<<I(1), S(<<97>>)>>), I(9)>>)>>,
+  \* UDT values with null trailing fields (also decoded from the short form that leaves them out)
+  <<TUdt(<<TInt, TText, NT("bigint")>>), KStruct(<<KPtr(i32), KPtr(str), KPtr(KK("int64"))>>), Tu(<<I(1), VNull, VNull>>)>>,
+  <<TUdt(<<TInt, TText, NT("bigint")>>), KStruct(<<KPtr(i32), KPtr(str), KPtr(KK("int64"))>>), Tu(<<I(2), S(<<98>>), VNull>>)>>,
+  <<TUdt(<<TInt, TText, NT("bigint")>>), KStruct(<<KPtr(i32), KPtr(str), KPtr(KK("int64"))>>), Tu(<<VNull, VNull, VNull>>)>>,
+  <<TUdt(<<TInt, TList(TInt), TMap(TText, TInt)>>), KUdtMap(<<i32, KSlice(i32), KMap(str, i32)>>), Tu(<<I(1), [k |-> "absent"], [k |-> "absent"]>>)>>,
+  <<TList(TUdt(<<TInt, TInt, TText>>)), KSlice(KStruct(<<i32, KPtr(i32), KPtr(str)>>)), L(<<Tu(<<I(1), I(2), S(<<97>>)>>), Tu(<<I(4), VNull, VNull>>)>>)>>,
+  <<TMap(TText, TUdt(<<TInt, TText>>)), KMap(str, KStruct(<<i32, KPtr(str)>>)), VMap(<<KV(S(<<107>>), Tu(<<I(7), VNull>>))>>)>>,
+  <<TTuple(<<TUdt(<<TInt, TText>>), TInt>>), KIfaces(<<KStruct(<<i32, KPtr(str)>>), i32>>), Tu(<<Tu(<<I(1), VNull>>), I(9)>>)>>,
+  <<TUdt(<<TUdt(<<TInt, TText>>), TInt>>), KStruct(<<KStruct(<<i32, KPtr(str)>>), KPtr(i32)>>), Tu(<<Tu(<<I(1), VNull>>), VNull>>)>>,
   \* known-defect leaves inside tuples
   <<TTuple(<<NT("bigint"), TInt>>), KIfaces(<<KK("bigint"), i32>>), Tu(<<I(5), I(1)>>)>>
 }
@@ -348,6 +357,8 @@ Expect(i) ==
       dec |-> IF c.gv.k = "int" THEN DecStr(BigOf(c.gv)) ELSE "",
       claimed |-> Claimed(c.T, c.K), conv |-> conv, ref |-> AnyRefusable(c.T, c.K, c.gv),
       spec |-> IF conv = "ok" THEN Enc(c.T, cv, c.p) ELSE RErr,
+      \* a second conformant encoding of the same value: trailing null fields of UDT values absent (RErr: there is none)
+      spec2 |-> IF conv = "ok" /\ EncShort(c.T, cv, c.p) # Enc(c.T, cv, c.p) THEN EncShort(c.T, cv, c.p) ELSE RErr,
       alts |-> IF conv = "ok" THEN encs ELSE {},
       targets |-> tg]
 
